@@ -5,6 +5,7 @@ import Mathlib.Tactic.FieldSimp
 import Mathlib.Tactic.Positivity
 import Mathlib.Data.Rat.Defs
 import Mathlib.Algebra.Order.Field.Rat
+import Mathlib.Algebra.Order.Field.Power
 
 /-!
 # Lemmas about the exact decimal text layer (`DS.Model.Dec`)
@@ -1028,6 +1029,338 @@ theorem flatten_splitAux (s acc : Str) :
 theorem flatten_splitWs (s : Str) : (splitWs s).flatten = s.filter (fun c => !isWs c) := by
   have := flatten_splitAux s []
   simpa [splitWs] using this
+
+
+
+/-! ## `%g`: the scientific decomposition is correct -/
+
+theorem natDigits_length_spec (n : Nat) (hn : 0 < n) :
+    10 ^ ((natDigits n).length - 1) ≤ n ∧ n < 10 ^ (natDigits n).length := by
+  induction n using Nat.strongRecOn with
+  | _ n ih =>
+    unfold natDigits
+    split
+    · simp; omega
+    · rename_i h10
+      have := ih (n / 10) (by omega) (by omega)
+      simp only [List.length_append, List.length_singleton, Nat.add_sub_cancel]
+      have hl : 1 ≤ (natDigits (n / 10)).length := by
+        have := natDigits_ne_nil (n / 10)
+        cases h : natDigits (n / 10) with
+        | nil => exact absurd h this
+        | cons => simp
+      obtain ⟨h1, h2⟩ := this
+      constructor
+      · have : 10 ^ (natDigits (n / 10)).length = 10 ^ ((natDigits (n / 10)).length - 1) * 10 := by
+          rw [← pow_succ]; congr 1; omega
+        rw [this]
+        have := Nat.div_mul_le_self n 10
+        nlinarith
+      · rw [pow_succ]
+        have := Nat.lt_succ_iff.2 (Nat.le_refl (n / 10))
+        have h3 : n < (n / 10 + 1) * 10 := by
+          have := Nat.div_add_mod n 10
+          have := Nat.mod_lt n (by norm_num : 10 > 0)
+          omega
+        nlinarith
+
+theorem ten_zpow_pos (e : Int) : (0 : Rat) < (10 : Rat) ^ e := zpow_pos (by norm_num) e
+
+theorem natCast_ten_pow (k : Nat) : ((10 ^ k : Nat) : Rat) = (10 : Rat) ^ (k : Int) := by
+  rw [zpow_natCast]; push_cast; rfl
+
+theorem geTenPow_iff (n d : Nat) (hd : 0 < d) (e : Int) :
+    geTenPow n d e = true ↔ (10 : Rat) ^ e ≤ (n : Rat) / (d : Rat) := by
+  have hdq : (0 : Rat) < (d : Rat) := by exact_mod_cast hd
+  unfold geTenPow
+  split
+  · rename_i h
+    have he : e = (e.toNat : Int) := (Int.toNat_of_nonneg h).symm
+    rw [decide_eq_true_eq, le_div_iff₀ hdq]
+    conv_rhs => rw [he, zpow_natCast]
+    constructor
+    · intro h'; have : ((d * 10 ^ e.toNat : Nat) : Rat) ≤ (n : Rat) := by exact_mod_cast h'
+      push_cast at this; linarith
+    · intro h'
+      have : ((d * 10 ^ e.toNat : Nat) : Rat) ≤ (n : Rat) := by push_cast; linarith
+      exact_mod_cast this
+  · rename_i h
+    have h' : 0 ≤ -e := by omega
+    have he : e = -((-e).toNat : Int) := by rw [Int.toNat_of_nonneg h']; ring
+    rw [decide_eq_true_eq, le_div_iff₀ hdq]
+    conv_rhs => rw [he, zpow_neg, zpow_natCast]
+    have hp : (0 : Rat) < (10 : Rat) ^ (-e).toNat := by positivity
+    rw [inv_mul_le_iff₀ hp]
+    constructor
+    · intro h''; have : ((d : Nat) : Rat) ≤ ((n * 10 ^ (-e).toNat : Nat) : Rat) := by exact_mod_cast h''
+      push_cast at this; linarith
+    · intro h''
+      have : ((d : Nat) : Rat) ≤ ((n * 10 ^ (-e).toNat : Nat) : Rat) := by push_cast; linarith
+      exact_mod_cast this
+
+
+
+theorem sciExp_spec (n d : Nat) (hn : 0 < n) (hd : 0 < d) :
+    (10 : Rat) ^ (sciExp n d) ≤ (n : Rat) / (d : Rat) ∧ (n : Rat) / (d : Rat) < (10 : Rat) ^ (sciExp n d + 1) := by
+  have hdq : (0 : Rat) < (d : Rat) := by exact_mod_cast hd
+  obtain ⟨hn1, hn2⟩ := natDigits_length_spec n hn
+  obtain ⟨hd1, hd2⟩ := natDigits_length_spec d hd
+  have ha : 1 ≤ numDigits n := by
+    unfold numDigits
+    cases h : natDigits n with
+    | nil => exact absurd h (natDigits_ne_nil n)
+    | cons => simp
+  have hb : 1 ≤ numDigits d := by
+    unfold numDigits
+    cases h : natDigits d with
+    | nil => exact absurd h (natDigits_ne_nil d)
+    | cons => simp
+  have hn1q : (10 : Rat) ^ ((numDigits n : Int) - 1) ≤ (n : Rat) := by
+    have : (((numDigits n - 1 : Nat)) : Int) = (numDigits n : Int) - 1 := by omega
+    rw [← this, zpow_natCast]
+    have : ((10 ^ (numDigits n - 1) : Nat) : Rat) ≤ (n : Rat) := by exact_mod_cast hn1
+    push_cast at this; exact this
+  have hn2q : (n : Rat) < (10 : Rat) ^ (numDigits n : Int) := by
+    rw [zpow_natCast]
+    have : (n : Rat) < ((10 ^ numDigits n : Nat) : Rat) := by exact_mod_cast hn2
+    push_cast at this; exact this
+  have hd1q : (10 : Rat) ^ ((numDigits d : Int) - 1) ≤ (d : Rat) := by
+    have : (((numDigits d - 1 : Nat)) : Int) = (numDigits d : Int) - 1 := by omega
+    rw [← this, zpow_natCast]
+    have : ((10 ^ (numDigits d - 1) : Nat) : Rat) ≤ (d : Rat) := by exact_mod_cast hd1
+    push_cast at this; exact this
+  have hd2q : (d : Rat) < (10 : Rat) ^ (numDigits d : Int) := by
+    rw [zpow_natCast]
+    have : (d : Rat) < ((10 ^ numDigits d : Nat) : Rat) := by exact_mod_cast hd2
+    push_cast at this; exact this
+  set g : Int := (numDigits n : Int) - (numDigits d : Int) with hg
+  have h10 : (10 : Rat) ≠ 0 := by norm_num
+  -- upper: n/d < 10^(g+1)
+  have hup : (n : Rat) / (d : Rat) < (10 : Rat) ^ (g + 1) := by
+    rw [div_lt_iff₀ hdq]
+    calc (n : Rat) < (10 : Rat) ^ (numDigits n : Int) := hn2q
+      _ = (10 : Rat) ^ (g + 1) * (10 : Rat) ^ ((numDigits d : Int) - 1) := by
+          rw [← zpow_add₀ h10]; congr 1; omega
+      _ ≤ (10 : Rat) ^ (g + 1) * (d : Rat) := by
+          apply mul_le_mul_of_nonneg_left hd1q (le_of_lt (ten_zpow_pos _))
+  -- lower: 10^(g-1) < n/d
+  have hlo : (10 : Rat) ^ (g - 1) < (n : Rat) / (d : Rat) := by
+    rw [lt_div_iff₀ hdq]
+    calc (10 : Rat) ^ (g - 1) * (d : Rat) < (10 : Rat) ^ (g - 1) * (10 : Rat) ^ (numDigits d : Int) := by
+          apply mul_lt_mul_of_pos_left hd2q (ten_zpow_pos _)
+      _ = (10 : Rat) ^ ((numDigits n : Int) - 1) := by
+          rw [← zpow_add₀ h10]; congr 1; omega
+      _ ≤ (n : Rat) := hn1q
+  unfold sciExp
+  simp only [← hg]
+  by_cases hge : geTenPow n d g = true
+  · rw [if_pos hge]
+    exact ⟨(geTenPow_iff n d hd g).1 hge, hup⟩
+  · rw [if_neg hge]
+    have : ¬ ((10 : Rat) ^ g ≤ (n : Rat) / (d : Rat)) := fun h => hge ((geTenPow_iff n d hd g).2 h)
+    refine ⟨le_of_lt hlo, ?_⟩
+    have e : g - 1 + 1 = g := by ring
+    rw [e]; exact lt_of_not_ge this
+
+/-- the decimal exponent is unique -/
+theorem zpow_interval_unique {v : Rat} {a b : Int} (ha1 : (10 : Rat) ^ a ≤ v) (ha2 : v < (10 : Rat) ^ (a + 1))
+    (hb1 : (10 : Rat) ^ b ≤ v) (hb2 : v < (10 : Rat) ^ (b + 1)) : a = b := by
+  have h1 : (1 : Rat) < 10 := by norm_num
+  have hab : (10 : Rat) ^ a < (10 : Rat) ^ (b + 1) := lt_of_le_of_lt ha1 hb2
+  have hba : (10 : Rat) ^ b < (10 : Rat) ^ (a + 1) := lt_of_le_of_lt hb1 ha2
+  rw [zpow_lt_zpow_iff_right₀ h1] at hab hba
+  omega
+
+
+
+theorem rhe_ge (n d lo : Nat) (hd : 0 < d) (h : lo * d ≤ n) : lo ≤ rhe n d := by
+  obtain ⟨h1, h2⟩ := rhe_spec n d hd
+  by_contra hc
+  have hc' : rhe n d + 1 ≤ lo := by omega
+  have : (rhe n d + 1) * d ≤ lo * d := Nat.mul_le_mul_right d hc'
+  have e : (rhe n d + 1) * d = rhe n d * d + d := by ring
+  omega
+
+theorem rhe_le (n d hi : Nat) (hd : 0 < d) (h : n ≤ hi * d) : rhe n d ≤ hi := by
+  obtain ⟨h1, h2⟩ := rhe_spec n d hd
+  by_contra hc
+  have hc' : hi + 1 ≤ rhe n d := by omega
+  have : (hi + 1) * d ≤ rhe n d * d := Nat.mul_le_mul_right d hc'
+  have e : (hi + 1) * d = hi * d + d := by ring
+  omega
+
+/-- `rheShift` is `rhe` of a fraction whose value is `(n/d) / 10^e` -/
+theorem rheShift_eq (n d : Nat) (hd : 0 < d) (e : Int) :
+    ∃ n' d' : Nat, 0 < d' ∧ rheShift n d e = rhe n' d' ∧ (n' : Rat) / (d' : Rat) = (n : Rat) / (d : Rat) / (10 : Rat) ^ e := by
+  have hdq : (0 : Rat) < (d : Rat) := by exact_mod_cast hd
+  unfold rheShift
+  split
+  · rename_i h
+    have he : e = (e.toNat : Int) := (Int.toNat_of_nonneg h).symm
+    refine ⟨n, d * 10 ^ e.toNat, by positivity, rfl, ?_⟩
+    conv_rhs => rw [he, zpow_natCast]
+    push_cast
+    rw [div_div]
+  · rename_i h
+    have h' : 0 ≤ -e := by omega
+    have he : e = -((-e).toNat : Int) := by rw [Int.toNat_of_nonneg h']; ring
+    refine ⟨n * 10 ^ (-e).toNat, d, hd, rfl, ?_⟩
+    conv_rhs => rw [he, zpow_neg, zpow_natCast]
+    push_cast
+    field_simp
+
+theorem rhe_ge_rat (n d lo : Nat) (hd : 0 < d) (h : (lo : Rat) ≤ (n : Rat) / (d : Rat)) : lo ≤ rhe n d := by
+  have hdq : (0 : Rat) < (d : Rat) := by exact_mod_cast hd
+  rw [le_div_iff₀ hdq] at h
+  exact rhe_ge n d lo hd (by exact_mod_cast h)
+
+theorem rhe_le_rat (n d hi : Nat) (hd : 0 < d) (h : (n : Rat) / (d : Rat) ≤ (hi : Rat)) : rhe n d ≤ hi := by
+  have hdq : (0 : Rat) < (d : Rat) := by exact_mod_cast hd
+  rw [div_le_iff₀ hdq] at h
+  exact rhe_le n d hi hd (by exact_mod_cast h)
+
+theorem rhe_exact_rat (n d m : Nat) (hd : 0 < d) (h : (n : Rat) / (d : Rat) = (m : Rat)) : rhe n d = m := by
+  have hdq : (0 : Rat) < (d : Rat) := by exact_mod_cast hd
+  rw [div_eq_iff (ne_of_gt hdq)] at h
+  have : n = m * d := by exact_mod_cast h
+  rw [this, rhe_mul_self _ _ hd]
+
+/-- the mantissa of the scientific decomposition has exactly `P` digits -/
+theorem sci_spec (P n d : Nat) (hP : 1 ≤ P) (hn : 0 < n) (hd : 0 < d) :
+    10 ^ (P - 1) ≤ (sci P n d).2 ∧ (sci P n d).2 < 10 ^ P := by
+  obtain ⟨h1, h2⟩ := sciExp_spec n d hn hd
+  obtain ⟨n', d', hd', hr, hv⟩ := rheShift_eq n d hd (sciExp n d - (P : Int) + 1)
+  have h10 : (10 : Rat) ≠ 0 := by norm_num
+  have hpos := ten_zpow_pos (sciExp n d - (P : Int) + 1)
+  have hlo : ((10 ^ (P - 1) : Nat) : Rat) ≤ (n' : Rat) / (d' : Rat) := by
+    rw [hv, le_div_iff₀ hpos, natCast_ten_pow, ← zpow_add₀ h10]
+    have : ((P - 1 : Nat) : Int) + (sciExp n d - (P : Int) + 1) = sciExp n d := by omega
+    rw [this]; exact h1
+  have hhi : (n' : Rat) / (d' : Rat) ≤ ((10 ^ P : Nat) : Rat) := by
+    rw [hv, div_le_iff₀ hpos, natCast_ten_pow, ← zpow_add₀ h10]
+    have : (P : Int) + (sciExp n d - (P : Int) + 1) = sciExp n d + 1 := by omega
+    rw [this]; exact le_of_lt h2
+  have r1 := rhe_ge_rat n' d' _ hd' hlo
+  have r2 := rhe_le_rat n' d' _ hd' hhi
+  rw [← hr] at r1 r2
+  unfold sci
+  simp only
+  split
+  · simp only
+    constructor
+    · exact le_refl _
+    · exact Nat.pow_lt_pow_right (by norm_num) (by omega)
+  · rename_i hne
+    simp only
+    exact ⟨r1, lt_of_le_of_ne r2 hne⟩
+
+
+
+/-- a number that already has `P` significant digits decomposes into itself -/
+theorem sci_exact (P n d m : Nat) (e : Int) (hP : 1 ≤ P) (hn : 0 < n) (hd : 0 < d)
+    (hm1 : 10 ^ (P - 1) ≤ m) (hm2 : m < 10 ^ P) (hv : (n : Rat) / (d : Rat) = (m : Rat) * (10 : Rat) ^ e) :
+    sci P n d = (e + (P : Int) - 1, m) := by
+  have h10 : (10 : Rat) ≠ 0 := by norm_num
+  have hpos := ten_zpow_pos e
+  obtain ⟨h1, h2⟩ := sciExp_spec n d hn hd
+  have hm1q : (10 : Rat) ^ ((P : Int) - 1) ≤ (m : Rat) := by
+    have : (((P - 1 : Nat)) : Int) = (P : Int) - 1 := by omega
+    rw [← this, ← natCast_ten_pow]; exact_mod_cast hm1
+  have hm2q : (m : Rat) < (10 : Rat) ^ (P : Int) := by
+    rw [← natCast_ten_pow]; exact_mod_cast hm2
+  have b1 : (10 : Rat) ^ (e + (P : Int) - 1) ≤ (n : Rat) / (d : Rat) := by
+    rw [hv]
+    have : e + (P : Int) - 1 = ((P : Int) - 1) + e := by ring
+    rw [this, zpow_add₀ h10]
+    exact mul_le_mul_of_nonneg_right hm1q (le_of_lt hpos)
+  have b2 : (n : Rat) / (d : Rat) < (10 : Rat) ^ (e + (P : Int) - 1 + 1) := by
+    rw [hv]
+    have : e + (P : Int) - 1 + 1 = (P : Int) + e := by ring
+    rw [this, zpow_add₀ h10]
+    exact mul_lt_mul_of_pos_right hm2q hpos
+  have hX : sciExp n d = e + (P : Int) - 1 := zpow_interval_unique h1 h2 b1 b2
+  obtain ⟨n', d', hd', hr, hv'⟩ := rheShift_eq n d hd (sciExp n d - (P : Int) + 1)
+  have he : sciExp n d - (P : Int) + 1 = e := by rw [hX]; ring
+  rw [he] at hr hv'
+  have hm : (n' : Rat) / (d' : Rat) = (m : Rat) := by
+    rw [hv', hv]; field_simp
+  have hrm : rheShift n d e = m := by rw [hr]; exact rhe_exact_rat n' d' m hd' hm
+  unfold sci
+  simp only [he, hrm]
+  rw [if_neg (by omega)]
+  rw [hX]
+
+theorem scale10_pos {v : Rat} (hv : 0 < v) (e : Int) : 0 < scale10 v e := by
+  rw [scale10_eq_zpow]; exact mul_pos hv (ten_zpow_pos e)
+
+theorem natAbs_div_den (y : Rat) : ((y.num.natAbs : Nat) : Rat) / (y.den : Rat) = |y| := by
+  have h := rat_eq_natAbs y
+  have hden : (0 : Rat) < (y.den : Rat) := by exact_mod_cast y.den_pos
+  have hnn : (0 : Rat) ≤ ((y.num.natAbs : Nat) : Rat) / (y.den : Rat) := by positivity
+  by_cases hy : y < 0
+  · rw [if_pos hy] at h
+    rw [abs_of_neg hy]
+    conv_rhs => rw [h]
+    ring
+  · rw [if_neg hy] at h
+    rw [abs_of_nonneg (not_lt.1 hy)]
+    conv_rhs => rw [h]
+    ring
+
+/-- a number printed with `P` significant digits re-prints to itself -/
+theorem roundSigP_idem (P : Nat) (hP : 1 ≤ P) (x : Rat) : roundSigP P (roundSigP P x) = roundSigP P x := by
+  by_cases hx : x = 0
+  · subst hx; simp [roundSigP]
+  have hnum : 0 < x.num.natAbs := by
+    have : x.num ≠ 0 := Rat.num_ne_zero.2 hx
+    omega
+  obtain ⟨hm1, hm2⟩ := sci_spec P x.num.natAbs x.den hP hnum x.den_pos
+  set r := sci P x.num.natAbs x.den with hr
+  have hmpos : (0 : Rat) < (r.2 : Rat) := by
+    have : 0 < r.2 := lt_of_lt_of_le (by positivity) hm1
+    exact_mod_cast this
+  set v : Rat := scale10 (r.2 : Rat) (r.1 - (P : Int) + 1) with hv
+  have hvpos : 0 < v := scale10_pos hmpos _
+  have hy : roundSigP P x = if x < 0 then -v else v := by
+    simp only [roundSigP, hx, if_false, ← hr, ← hv]
+  set y := roundSigP P x with hydef
+  have hyne : y ≠ 0 := by
+    rw [hy]; split <;> [exact neg_ne_zero.2 (ne_of_gt hvpos); exact ne_of_gt hvpos]
+  have hyneg : y < 0 ↔ x < 0 := by
+    rw [hy]; by_cases h : x < 0
+    · simp [h, hvpos]
+    · simp [h, le_of_lt hvpos]
+  have habs : |y| = v := by
+    rw [hy]; split
+    · rw [abs_neg, abs_of_pos hvpos]
+    · exact abs_of_pos hvpos
+  have hynum : 0 < y.num.natAbs := by
+    have : y.num ≠ 0 := Rat.num_ne_zero.2 hyne
+    omega
+  have hval : ((y.num.natAbs : Nat) : Rat) / (y.den : Rat) = (r.2 : Rat) * (10 : Rat) ^ (r.1 - (P : Int) + 1) := by
+    rw [natAbs_div_den, habs, hv, scale10_eq_zpow]
+  have hs := sci_exact P y.num.natAbs y.den r.2 (r.1 - (P : Int) + 1) hP hynum y.den_pos hm1 hm2 hval
+  have hs' : sci P y.num.natAbs y.den = r := by
+    rw [hs]; ext
+    · simp; ring
+    · rfl
+  show roundSigP P y = y
+  conv_lhs => unfold roundSigP
+  simp only [hyne, if_false, hs', ← hv]
+  rw [hy]
+  by_cases h : x < 0
+  · have : y < 0 := hyneg.2 h
+    simp only [h, if_true]
+    rw [hy] at this; simp only [h, if_true] at this
+    simp [this]
+  · have : ¬ y < 0 := fun hh => h (hyneg.1 hh)
+    simp only [h, if_false]
+    rw [hy] at this; simp only [h, if_false] at this
+    simp [this]
+
+theorem roundSig_idem (P : Nat) (x : Rat) : roundSig P (roundSig P x) = roundSig P x := by
+  unfold roundSig
+  exact roundSigP_idem _ (by split <;> omega) x
 
 
 end DS.Dec
